@@ -17,6 +17,7 @@
  * project authors may be found in the CONTRIBUTORS.md file in the root
  * of the source tree.
  */
+#include <limits>
 #include <sys/epoll.h>
 #include <unistd.h>
 
@@ -70,7 +71,11 @@ void EpollLoop::runLoop(Mode mode)
 
     keep_running_ = (mode == Loop::Mode::kForever);
     do {
-        int fds = epoll_wait(epoll_fd_, events.data(), events.size(), getWaitTime());
+        //! getWaitTime() 是 int64 毫秒，而 epoll_wait() 的超时是 int：超过 INT_MAX（约24.8天）时若直接截断会变成负数，即永久阻塞
+        int64_t wait_ms = getWaitTime();
+        if (wait_ms > std::numeric_limits<int>::max())
+            wait_ms = std::numeric_limits<int>::max();
+        int fds = epoll_wait(epoll_fd_, events.data(), events.size(), static_cast<int>(wait_ms));
 
         RECORD_SCOPE();
         beginLoopProcess();
